@@ -126,7 +126,7 @@ pub fn execute(case: &ChanCase) -> ChanRun {
         .nested
         .iter()
         .enumerate()
-        .map(|(i, x)| Nested { thread: x.thread, at: x.at, id: i as u32 })
+        .map(|(i, x)| Nested { thread: x.thread, at: x.at, id: i as u32, on: 0 })
         .collect();
     let cfg = Config {
         schedule: case.schedule.clone(),
